@@ -311,7 +311,6 @@ def run_scenario(scn, workdir):
     for rp in (rep_d, rep_c):
         if rp["outcome"] in ("timeout", "harness_error", "killed"):
             raise RuntimeError(f"observed run step failed: {rp}")
-    probes["listing_permuted"] = int(rep_d.get("glob_multi", 0) > 0)
     debris_digest = digest(debris)
     out = {
         "status": "ok",
